@@ -95,7 +95,7 @@ QNames == {"x", "A", "B"}       \* classes the library module q defines besides 
 \* binding kinds
 DefKinds == {"dclass", "dfunc", "dattr", "skel"}       \* class n / def n / n = ... / the skeleton's own class A or B
 PseudoKinds == {"iattr", "annonly"}                    \* self.n = ... in __init__ / `n: int`: Griffe members, no Python binding in that scope
-ImpKinds == {"i_mod", "i_modas", "i_from", "i_fromas", "i_frommod", "i_rel1", "st"}
+ImpKinds == {"i_mod", "i_rebind", "i_modas", "i_from", "i_fromas", "i_frommod", "i_rel1", "st"}
 Scopes == {"mod", "A", "B", "A.init", "A.m", "B.init", "B.m"}
 InitScopes == {"A.init", "B.init"}
 MScopes == {"A.m", "B.m"}
@@ -164,9 +164,12 @@ StmtOf(k, o) ==
     [] k = "i_from" -> From(0, <<"q">>, n, Nil)                    \* from q import n
     [] k = "i_frommod" -> IF M = "PSB" THEN From(0, <<"pkg">>, "a", n) ELSE From(0, <<"pkg", "sub">>, "b", n)
     [] k = "i_rel1" -> From(1, <<>>, "K", n)                       \* from . import K as n
-    [] k = "i_mod" -> Import(IF n = "q" THEN <<"q">> ELSE ImportPkgMod, Nil)   \* import q / import pkg.sub.b
+    [] k \in {"i_mod", "i_rebind"} -> Import(IF n = "q" THEN <<"q">> ELSE ImportPkgMod, Nil)   \* import q / import pkg.sub.b
     [] k = "st" -> st
     [] OTHER -> NoStmt
+\* "i_rebind": two statements in the same scope bind the name, the later one wins (`from lib import K as q` then `import q`;
+\* `from lib import K as pkg` then `import pkg.sub.b`).  PreStmtOf is the earlier statement.
+PreStmtOf(k, o) == IF k = "i_rebind" THEN From(0, MPath[LibOf(o)], "K", n) ELSE NoStmt
 LimpKind == IF fam = "rel" THEN "st" ELSE IF n \in ModNames THEN "i_mod" ELSE "i_fromas"
 KindAt(o) == CASE o = "M" -> modb [] o = "A" -> ab [] o = "B" -> bb
                [] o \in {"fA", "fB"} -> (IF fnb = "limp" THEN LimpKind ELSE None) [] OTHER -> None
@@ -197,8 +200,12 @@ NoMem == [has |-> FALSE, kind |-> None, path |-> <<>>]
 FromKind(k, o) ==
   IF k = None THEN NoMem
   ELSE IF k \in ImpKinds THEN
+    \* statements are visited in order; set_member replaces the member an earlier statement created under the same name
     LET v == GVisit(StmtOf(k, o), o)
-    IN  IF v.created /\ v.name = n THEN [has |-> TRUE, kind |-> "alias", path |-> v.target] ELSE NoMem
+        w == GVisit(PreStmtOf(k, o), o)
+    IN  IF v.created /\ v.name = n THEN [has |-> TRUE, kind |-> "alias", path |-> v.target]
+        ELSE IF PreStmtOf(k, o).stmt # Nil /\ w.created /\ w.name = n THEN [has |-> TRUE, kind |-> "alias", path |-> w.target]
+        ELSE NoMem
   ELSE [has |-> TRUE, kind |-> k, path |-> ObjPath(o) \o <<n>>]
 ModuleMember(m, explicit) ==            \* members of a module object: what its body binds, the library class K, its submodules
   IF explicit.has THEN explicit
@@ -249,7 +256,11 @@ PyNone == [b |-> "none", p |-> <<>>]
 PyKind(k, o) ==
   IF k = None \/ k \in PseudoKinds THEN PyNone
   ELSE IF k \in ImpKinds THEN
-    LET r == PyStmt(StmtOf(k, o)) IN IF r.ok /\ r.name = n THEN [b |-> "obj", p |-> r.obj] ELSE PyNone
+    LET r == PyStmt(StmtOf(k, o))           \* the later statement rebinds the name
+        q == PyStmt(PreStmtOf(k, o))
+    IN  IF r.ok /\ r.name = n THEN [b |-> "obj", p |-> r.obj]
+        ELSE IF PreStmtOf(k, o).stmt # Nil /\ q.ok /\ q.name = n THEN [b |-> "obj", p |-> q.obj]
+        ELSE PyNone
   ELSE [b |-> "obj", p |-> ObjPath(o) \o <<n>>]
 \* late = FALSE: when the site is executed (an annotation / value / base / decorator in a class body runs while the class
 \* is being built); late = TRUE: when a stringized annotation is evaluated afterwards (inspect.get_annotations(eval_str=True):
@@ -274,7 +285,7 @@ Exempt == fam = "rel" /\ ~PyStmt(st).ok       \* CPython rejects the statement: 
 \* ---- case space ---------------------------------------------------------------------------------
 LevelKinds(l) ==
   IF n \in SubNames THEN {None}
-  ELSE IF n \in ModNames THEN {None, "i_mod"}
+  ELSE IF n \in ModNames THEN {None, "i_mod", "i_rebind"}
   ELSE {k \in (IF l = "M" THEN KindsM ELSE KindsC) : k # "i_mod" /\ k # "st" /\ (l = "M" => k # "iattr") /\ (k = "i_from" => n \in QNames)}
 UpNames == Generic \cup {"A", "B"}
 
@@ -447,5 +458,8 @@ EmitCase ==
                              clean |-> InDom({}), exempt |-> Exempt, why |-> (IF Exempt THEN PyStmt(st).why ELSE ""),
                              stm |-> IF S = "A.init"
                                        THEN [M |-> StmtOf(modb, "M"), A |-> StmtOf(ab, "A"), B |-> StmtOf(bb, "B"), F |-> StmtOf(KindAt("fA"), "fA")]
+                                       ELSE [M |-> NoStmt, A |-> NoStmt, B |-> NoStmt, F |-> NoStmt],
+                             pre |-> IF S = "A.init"
+                                       THEN [M |-> PreStmtOf(modb, "M"), A |-> PreStmtOf(ab, "A"), B |-> PreStmtOf(bb, "B"), F |-> NoStmt]
                                        ELSE [M |-> NoStmt, A |-> NoStmt, B |-> NoStmt, F |-> NoStmt]])>>)
 =============================================================================
